@@ -394,8 +394,10 @@ def _alarm(signum, frame):
     raise Watchdog()
 
 
-def griffe_view(root: Path, pkg):
-    """Returns {"error": str|None, "modules": {path: {"names": {name: [kind, final_path] | ["unresolved", target_path]}, "all": [...]|None}}, "present": [...problems]}."""
+def griffe_view(root: Path, pkg, preload=None):
+    """`preload`: dotted path of a module of the package that the SAME loader loads first (history of the loader object: the package is then
+    loaded a second time, and the result must not depend on it).
+    Returns {"error": str|None, "modules": {path: {"names": {name: [kind, final_path] | ["unresolved", target_path]}, "all": [...]|None}}, "present": [...problems]}."""
     import signal
     import griffe
     from _griffe.exceptions import AliasResolutionError, CyclicAliasError
@@ -405,8 +407,15 @@ def griffe_view(root: Path, pkg):
     sys.setrecursionlimit(3000)
     try:
         try:
-            top = griffe.load(pkg["name"], search_paths=[str(root)], resolve_aliases=True, resolve_implicit=True,
-                              resolve_external=False, allow_inspection=False)
+            if preload is None:
+                top = griffe.load(pkg["name"], search_paths=[str(root)], resolve_aliases=True, resolve_implicit=True,
+                                  resolve_external=False, allow_inspection=False)
+            else:
+                # what griffe.load does, with one loader object used twice
+                loader = griffe.GriffeLoader(search_paths=[str(root)], allow_inspection=False)
+                loader.load(preload)
+                top = loader.load(pkg["name"])
+                loader.resolve_aliases(implicit=True, external=False)
         except Watchdog:
             return {"error": "timeout", "modules": {}, "present": []}
         except RecursionError:
@@ -598,6 +607,10 @@ class Sim:
         self.ns = {}        # module path tuple -> {name: ("obj", id) | ("mod", path) | ("all", path)}
         self.all = {}       # module path tuple -> list | None
         self.alltype = {}   # module path tuple -> "list" | "tuple"
+        self.starred = {}   # module path tuple -> names a wildcard import bound there
+        self.rebound = {}   # module path tuple -> names bound there and then bound again by a wildcard import (their importers must follow)
+        self.imported = {}  # module path tuple -> names an explicit import bound there
+        self.hot = None     # a name the package keeps re-binding (definitions, imports and overrides of ONE name across modules meet more often)
 
     def star_names(self, t):
         a = self.all.get(t)
@@ -635,29 +648,56 @@ def gen_body(rng, mod, earlier, sim, mods, rich):
     style = lambda: "rel" if rng.random() < 0.4 else "abs"
     children = [tuple(m["path"]) for m in mods if len(m["path"]) == len(me) + 1 and tuple(m["path"][:-1]) == me] if mod["init"] else []
 
+    starred = sim.starred[me] = set()
+    rebound = sim.rebound[me] = set()
+    imported = sim.imported[me] = set()
+
     def bind_star(tp):
         for n in sim.star_names(tp):
+            (rebound if n in ns and n not in starred else starred).add(n)
             ns[n] = sim.ns[tp].get(n, ("mod", dotted(tp) + "." + n))
+
+    def pick(cands):
+        return sim.hot if sim.hot in cands and rng.random() < 0.2 else rng.choice(cands)
+
+    def source(pred):
+        """An importable module; half of the time one that satisfies `pred` when there is one (directed re-binding: an import that
+        overrides a local binding, an import of the name the package keeps re-binding)."""
+        if rng.random() < 0.7:
+            good = [e for e in earlier if pred(tuple(e["path"]))]
+            if good:
+                return tuple(rng.choice(good)["path"])
+        return tuple(rng.choice(earlier)["path"])
 
     for _ in range(n_st):
         r = rng.random()
         if r < 0.34 or not earlier:
-            name = rng.choice(NAMES)
+            name = pick(NAMES)
             kind = "class" if name.lstrip("_")[0].isupper() else "func"
             body.append(["def", name, kind])
             ns[name] = ("obj", dotted(me) + "." + name)
         elif r < 0.58:
-            tp = tuple(rng.choice(earlier)["path"])
+            tp = source(lambda t: sim.hot in sim.ns[t])
             # names used as sources of an __all__ (w<k>, a<k>) are bound once, by the import written for that purpose
-            cands = [n for n in sim.ns[tp] if not n.startswith("__") and not (len(n) == 2 and n[0] in "wa" and n[1].isdigit())]
-            if not cands:
+            usable = lambda t: [n for n in sim.ns[t] if not n.startswith("__") and not (len(n) == 2 and n[0] in "wa" and n[1].isdigit())]
+            cands = usable(tp)
+            # directed: a name its module only has from a wildcard import, or one a wildcard import bound AGAIN there
+            r2 = rng.random()
+            special = sim.rebound if r2 < 0.3 else sim.starred if r2 < 0.6 else None
+            pairs = [(t, n) for e in earlier for t in [tuple(e["path"])] for n in usable(t) if n in special[t]] if special else []
+            if pairs:
+                tp, n = rng.choice(pairs)
+            elif not cands:
                 continue
-            n = rng.choice(cands)
+            else:
+                n = pick(cands)
             asname = rng.choice(NAMES + ["z"]) if rng.random() < 0.35 else None
             body.append(["from", list(tp), n, asname, style()])
             ns[asname or n] = sim.ns[tp][n]
+            imported.add(asname or n)
         elif r < 0.80:
-            tp = tuple(rng.choice(earlier)["path"])
+            clash = lambda t: [n for n in sim.star_names(t) if n in ns]
+            tp = source((lambda t: any(n in sim.imported[t] for n in clash(t))) if rng.random() < 0.5 else (lambda t: bool(clash(t))))
             body.append(["star", list(tp), style()])
             bind_star(tp)
         else:
@@ -830,14 +870,59 @@ def add_back_edges(rng, pkg):
         m["body"].insert(rng.randint(0, len(m["body"])), st)
 
 
+def plant_chain(rng, order, sim):
+    """Directed scenario (additive, so every import of the package still succeeds): ONE name travels through up to five modules along the
+    dependency order, each hop a wildcard import or an explicit import from the previous module of the chain, written at a random place of
+    the module - before or after a local binding of the same name, so that one overrides the other - and sometimes right after a fresh
+    local definition of the name (the import overrides it)."""
+    n = sim.hot
+    kind = "class" if n[0].isupper() else "func"
+    i0 = min(rng.randrange(len(order)), rng.randrange(len(order)))          # long chains need an early start
+    first = order[i0]
+    if n not in sim.ns[tuple(first["path"])]:
+        first["body"].insert(rng.randint(0, len(first["body"])), ["def", n, kind])
+        sim.ns[tuple(first["path"])][n] = ("obj", dotted(first["path"]) + "." + n)
+    prev = first
+    hops = 0
+    star = rng.random() < 0.5
+    for i in range(i0 + 1, len(order)):
+        mod = order[i]
+        if hops >= 5 or rng.random() < 0.05 or prev not in importable_from(mod, order[:i]):
+            continue
+        pp, me = tuple(prev["path"]), tuple(mod["path"])
+        if sim.all.get(pp) is not None and n not in sim.all[pp] and rng.random() < 0.7:
+            # the previous module of the chain has an __all__ without the name: it exports it as well (`__all__ += [name]` at its end)
+            prev["body"].append(["addall", sim.alltype[pp], [["s", n]]])
+            sim.all[pp].append(n)
+        star = (not star) if rng.random() < 0.9 else star                      # mostly alternating: wildcard, explicit, wildcard, ...
+        hop = ["star", list(pp), "rel" if rng.random() < 0.4 else "abs"] if n in sim.star_names(pp) and star \
+            else ["from", list(pp), n, None, "rel" if rng.random() < 0.4 else "abs"]
+        body = mod["body"]
+        # mostly after the last local binding of the name, so that the import is the binding that counts
+        binds = [j for j, st in enumerate(body) if (st[0] == "def" and st[1] == n) or (st[0] == "from" and (st[3] or st[2]) == n) or st[0] == "guard"]
+        pos = rng.randint(binds[-1] + 1 if binds and rng.random() < 0.7 else 0, len(body))
+        body.insert(pos, hop)
+        if rng.random() < (0.6 if hop[0] == "star" else 0.2):
+            body.insert(rng.randint(0, pos), ["def", n, kind])
+        if hop[0] == "star":
+            for x in sim.star_names(pp):
+                sim.ns[me].setdefault(x, sim.ns[pp].get(x, ("mod", dotted(pp) + "." + x)))
+        sim.ns[me].setdefault(n, sim.ns[pp][n])
+        prev = mod
+        hops += 1
+
+
 def gen_package(rng, name, rich=True):
     mods = tree_shape(rng, name, rich)
     order = topo_order(rng, mods)
     sim = Sim()
+    sim.hot = rng.choice(PUBLIC)
     done = []
     for m in order:
         gen_body(rng, m, done, sim, mods, rich)
         done.append(m)
+    if rng.random() < 0.5:
+        plant_chain(rng, order, sim)
     return {"name": name, "modules": mods, "order": [dotted(m["path"]) for m in order]}
 
 
@@ -1468,6 +1553,20 @@ def check_packages(ctx, pkgs, stream, direct=True):
         observe_package(ctx, pkg, stream)
         view = griffe_view(root, pkg)
         top = view.pop("top", None)
+        subs = [m for m in pkg["modules"] if len(m["path"]) > 1]
+        if subs and view["error"] is None and ctx.rng.random() < 0.34:
+            # history of the loader object: loading a module of the package first, then the package, with ONE loader gives what a fresh loader gives
+            pre = dotted(ctx.rng.choice(subs)["path"])
+            hist = griffe_view(root, pkg, preload=pre)
+            hist.pop("top", None)
+            ctx.count("loader_history_checked")
+            if (hist["error"], hist["modules"]) != (None, view["modules"]):
+                hd = [[mp, n, (hist["modules"].get(mp) or {"names": {}})["names"].get(n), v] for mp, m in view["modules"].items() for n, v in m["names"].items()
+                      if (hist["modules"].get(mp) or {"names": {}})["names"].get(n) != v]
+                ha = [[mp, "__all__", (hist["modules"].get(mp) or {}).get("all"), m["all"]] for mp, m in view["modules"].items()
+                      if (hist["modules"].get(mp) or {}).get("all") != m["all"]]
+                ctx.property_failure({"package": pkg["name"], "sources": case["sources"], "loads_on_one_loader": [pre, pkg["name"]]},
+                                     {"loader_history": "second load differs from a fresh load", "error": hist["error"], "second_vs_fresh": (ha + hd)[:6]}, None)
         leak = any(n.endswith("/*") for m in ml["modules"].values() for n in m["names"])
         nontrivial = any(st[0] in ("star", "setall") for _, st in stmt_tags(pkg))
         ctx.case({"sources": case["sources"]}, nontrivial)
